@@ -4,7 +4,7 @@
 //
 //	reset <base>             fresh State (mainnet parameters); block heights are base+1, base+2, …
 //	blk <h> <sponsor|-> <tx> <tx> …   ProcessBlock of a block built from symbolic transactions
-//	     tx: reg:<i>  upd:<i>:<n>  cancel:<i>  act:<i>  vote:<v>:<i>,<j>…  unvote:<v>  illegal:<i>:<nonce>  inactive:<i>:<nonce>
+//	     tx: reg:<i>[:<stakeUntil>]  upd:<i>:<n>[:<stakeUntil>]  stake:<addr>:<amount>:<nonce>  cancel:<i>  act:<i>  vote:<v>:<i>,<j>…  unvote:<v>  illegal:<i>:<nonce>  inactive:<i>:<nonce>
 //	special <h> illegal:<i>  ProcessSpecialTxPayload (temporary changes, outside any block)
 //	rb <k>                   RollbackTo(k) on the state that processed everything, compared with a
 //	                         FRESH State that processed only the blocks of height <= k
@@ -18,6 +18,7 @@ import (
 	"crypto/sha256"
 	"fmt"
 	"math/big"
+	"os"
 	"reflect"
 	"sort"
 	"strconv"
@@ -86,6 +87,8 @@ type env struct {
 	voteTxs map[int]interfaces.Transaction
 	// heights of blocks in which an InactiveArbitrators tx named a producer that was ALREADY inactive
 	emergTwice map[uint32]bool
+	twoMaps    bool // some producer sits in ActivityProducers AND CanceledProducers (cancel at its activation height)
+	special    bool // an out-of-block special payload (temporary changes) was processed
 }
 
 var e *env
@@ -136,10 +139,30 @@ func buildTx(en *env, d string) interfaces.Transaction {
 	switch p[0] {
 	case "reg":
 		i := idx(p[1])
-		return mkTx(common2.RegisterProducer, 0, &payload.ProducerInfo{OwnerKey: ownerKeys[i], NodePublicKey: nodeKeys[i], NickName: fmt.Sprintf("P%d", i)}, nil, nil)
+		su := uint32(0) // reg:<i>[:<stakeUntil>]  (StakeUntil != 0 registers a DPoS 2.0 producer)
+		if len(p) > 2 {
+			v, _ := strconv.Atoi(p[2])
+			su = uint32(v)
+		}
+		return mkTx(common2.RegisterProducer, 0, &payload.ProducerInfo{OwnerKey: ownerKeys[i], NodePublicKey: nodeKeys[i], NickName: fmt.Sprintf("P%d", i), StakeUntil: su}, nil, nil)
 	case "upd":
 		i := idx(p[1])
-		return mkTx(common2.UpdateProducer, 0, &payload.ProducerInfo{OwnerKey: ownerKeys[i], NodePublicKey: nodeKeys[i], NickName: fmt.Sprintf("P%d-%s", i, p[2])}, nil, nil)
+		su := uint32(0) // upd:<i>:<n>[:<stakeUntil>]  (StakeUntil != 0 turns a DPoS 1.0 producer into V1V2)
+		if len(p) > 3 {
+			v, _ := strconv.Atoi(p[3])
+			su = uint32(v)
+		}
+		return mkTx(common2.UpdateProducer, 0, &payload.ProducerInfo{OwnerKey: ownerKeys[i], NodePublicKey: nodeKeys[i], NickName: fmt.Sprintf("P%d-%s", i, p[2]), StakeUntil: su}, nil, nil)
+	case "stake": // stake:<addr>:<amount>:<nonce>   ExchangeVotes locking <amount> on stake address <addr>
+		a, _ := strconv.Atoi(p[1])
+		amt, _ := strconv.ParseInt(p[2], 10, 64)
+		n, _ := strconv.Atoi(p[3])
+		var addr common.Uint168
+		addr[0], addr[1] = 0x1f, byte(0x40+a)
+		out := &common2.Output{Value: common.Fixed64(amt), ProgramHash: addr, Type: common2.OTStake,
+			Payload: &outputpayload.ExchangeVotesOutput{Version: 0, StakeAddress: addr}}
+		return functions.CreateTransaction(common2.TxVersion09, common2.ExchangeVotes, 0, nil,
+			[]*common2.Attribute{{Usage: common2.Nonce, Data: []byte{byte(n), byte(n >> 8)}}}, []*common2.Input{}, []*common2.Output{out}, 0, []*program.Program{})
 	case "cancel":
 		return mkTx(common2.CancelProducer, 0, &payload.ProcessProducer{OwnerKey: ownerKeys[idx(p[1])]}, nil, nil)
 	case "act":
@@ -366,16 +389,30 @@ func exec(t []string) string {
 			}
 		}
 		process(e, e.cur, b)
+		if os.Getenv("C21_DBG") != "" {
+			if pr := e.cur.GetProducer(ownerKeys[4]); pr != nil {
+				fmt.Fprintln(os.Stderr, "DBG", h, "p4 state", pr.State())
+			} else {
+				fmt.Fprintln(os.Stderr, "DBG", h, "p4 nil")
+			}
+		}
 		e.blocks = append(e.blocks, b)
+		for k := range e.cur.ActivityProducers {
+			if _, both := e.cur.CanceledProducers[k]; both {
+				e.twoMaps = true
+			}
+		}
 		return status(e.cur)
 	case "special":
 		h, _ := strconv.Atoi(t[1])
 		tx := buildTx(e, t[2])
+		e.special = true
 		e.cur.ProcessSpecialTxPayload(tx.Payload(), uint32(h))
 		return "ok"
 	case "rb":
 		k64, _ := strconv.Atoi(t[1])
 		k := uint32(k64)
+		lastTwoMaps, lastSpecial = e.twoMaps, e.special
 		lastEmergTwice = false
 		for hh := range e.emergTwice {
 			if hh > k {
@@ -400,12 +437,39 @@ func exec(t []string) string {
 		a, b := fieldDump(e.cur), fieldDump(fresh.cur)
 		leafs := map[string]bool{}
 		lastDiff = map[string][2]string{}
-		// map entries present on one side only: report the entry, skip its leaves
+		// map entries present on one side only: report the entry once as `M[+]` (only in the rolled-back
+		// state; `M[+0]` when every leaf of the extra entry is zero) or `M[-]` (missing in it)
 		var missing []string
+		zeroEntry := func(m map[string]string, prefix string) bool {
+			numeric := false
+			for pth, v := range m {
+				if strings.HasPrefix(pth, prefix) && !strings.HasSuffix(pth, "#") && !strings.HasSuffix(pth, ".len") {
+					if v == "0" {
+						numeric = true
+					} else if v != "{}" && v != "false" && v != "nil" {
+						return false
+					}
+				}
+			}
+			return numeric // an amount / counter entry whose every field is zero
+		}
+		noteEntry := func(pth, tag, va, vb string) {
+			n := leafName(pth)
+			n = n[:len(n)-1] + tag + "]"
+			leafs[n] = true
+			if _, seen := lastDiff[n]; !seen {
+				lastDiff[n] = [2]string{va, vb}
+			}
+		}
 		for pth := range a {
 			if strings.HasSuffix(pth, "#") {
 				if _, ok := b[pth]; !ok {
 					missing = append(missing, pth[:len(pth)-1])
+					tag := "+"
+					if zeroEntry(a, pth[:len(pth)-1]) {
+						tag = "+0"
+					}
+					noteEntry(pth, tag, pth[:len(pth)-1]+" present", "absent")
 				}
 			}
 		}
@@ -413,12 +477,16 @@ func exec(t []string) string {
 			if strings.HasSuffix(pth, "#") {
 				if _, ok := a[pth]; !ok {
 					missing = append(missing, pth[:len(pth)-1])
+					noteEntry(pth, "-", pth[:len(pth)-1]+" absent", "present")
 				}
 			}
 		}
 		under := func(pth string) bool {
+			if strings.HasSuffix(pth, ".len") {
+				return true // implied by the entry markers
+			}
 			for _, m := range missing {
-				if strings.HasPrefix(pth, m) && !strings.HasSuffix(pth, "#") {
+				if strings.HasPrefix(pth, m) {
 					return true
 				}
 			}
@@ -464,6 +532,12 @@ func exec(t []string) string {
 			lastVerdict = "diff " + strings.Join(diff, ",")
 			// continue from the direct build: later comparisons are independent experiments
 			e.cur = fresh.cur
+			e.twoMaps, e.special = false, false
+			for k := range e.cur.ActivityProducers {
+				if _, both := e.cur.CanceledProducers[k]; both {
+					e.twoMaps = true
+				}
+			}
 		}
 		return status(e.cur)
 	}
@@ -472,18 +546,28 @@ func exec(t []string) string {
 
 var lastDiff map[string][2]string
 var lastVerdict string
-var lastEmergTwice bool
+var lastEmergTwice, lastTwoMaps, lastSpecial bool
 var reportedN = map[string]int{}
 
 // leaf names of the differences recorded in known-findings.jsonl (only used to order the report)
-var recordedLeaf = map[string]bool{"LastIrreversibleHeight": true, "PreBlockArbiters[]": true,
+var recordedLeaf = map[string]bool{"LastIrreversibleHeight": true, "PreBlockArbiters[+]": true, "PreBlockArbiters[-]": true, "DposV2VoteRights[+0]": true,
 	"Producer.inactiveCountingHeight": true, "Producer.inactiveCount": true, "Producer.activateRequestHeight": true}
 
 // the three membership leaves are a recorded finding only when the rolled-back range contains an
 // emergency-inactive transaction on a producer that was already inactive
-var emergLeaf = map[string]bool{"ActivityProducers[]": true, "InactiveProducers[]": true, "EmergencyInactiveArbiters[]": true}
+var emergLeaf = map[string]bool{"ActivityProducers[+]": true, "InactiveProducers[-]": true, "EmergencyInactiveArbiters[-]": true}
 
-func recorded(n string) bool { return recordedLeaf[n] || (lastEmergTwice && emergLeaf[n]) }
+// a CancelProducer in the block in which the pending producer is activated leaves it Active AND in
+// CanceledProducers with its nickname released; later constant undos (cancelHeight = 0, nickname re-added) show it
+var twoMapsLeaf = map[string]bool{"CanceledProducers[-]": true, "Nicknames[+]": true, "Producer.cancelHeight": true}
+
+// the first Append of the block after ProcessSpecialTxPayload reads the state while the temporary changes are
+// still applied (C20 note): the block takes another branch than on a node that never saw the payload
+var specialLeaf = map[string]bool{"ActivityProducers[+]": true, "IllegalProducers[-]": true, "ActivityProducers[-]": true, "IllegalProducers[+]": true}
+
+func recorded(n string) bool {
+	return recordedLeaf[n] || (lastEmergTwice && emergLeaf[n]) || (lastTwoMaps && twoMapsLeaf[n]) || (lastSpecial && specialLeaf[n])
+}
 
 // ---------------------------------------------------------------- oracle: the property itself
 
@@ -525,9 +609,13 @@ func oracle(t []string, out string) *hx.Violation {
 		if len(det) > 1500 {
 			det = det[:1500] + "…"
 		}
-		det = fmt.Sprintf("emergency-inactive-on-inactive=%v; ", lastEmergTwice) + det
+		det = fmt.Sprintf("emergency-inactive-on-inactive=%v cancel-at-activation=%v special-payload-seen=%v; ", lastEmergTwice, lastTwoMaps, lastSpecial) + det
 		if lastEmergTwice && emergLeaf[first] {
 			first = "emergency-inactive-twice"
+		} else if lastTwoMaps && twoMapsLeaf[first] {
+			first = "cancel-at-activation"
+		} else if lastSpecial && specialLeaf[first] {
+			first = "special-payload-pollution"
 		}
 		return &hx.Violation{Kind: "rollback-differs:" + first, Detail: "State after RollbackTo(" + t[1] + ") differs from a fresh State that processed only heights <= " + t[1] + ": " + det}
 	}
@@ -548,6 +636,7 @@ func gen(g *hx.Gen) {
 		h := base
 		registered := map[int]bool{}
 		votes := 0
+		stakeUntil := base + 100000
 		nonceN := 0
 		nonce := func() int { nonceN++; return nonceN }
 		liveVotes := []int{}
@@ -587,7 +676,12 @@ func gen(g *hx.Gen) {
 					}
 				case c < 5:
 					if alive(i) && !usedInBlock[i] {
-						txs = append(txs, fmt.Sprintf("upd:%d:%d", i, r.Intn(100)))
+						if r.Chance(50) {
+							stakeUntil += uint32(1 + r.Intn(1000)) // StakeUntil only ever grows (context check)
+							txs = append(txs, fmt.Sprintf("upd:%d:%d:%d", i, r.Intn(100), stakeUntil))
+						} else {
+							txs = append(txs, fmt.Sprintf("upd:%d:%d", i, r.Intn(100)))
+						}
 						usedInBlock[i] = true
 					}
 				case c < 6:
@@ -637,6 +731,10 @@ func gen(g *hx.Gen) {
 						usedInBlock[i] = true
 					}
 				}
+			}
+			if r.Chance(25) { // stakes: few addresses, amounts that repeat and grow
+				amt := []int64{100, 100, 300, 50, 1000}[r.Intn(5)] * 100000000
+				txs = append(txs, fmt.Sprintf("stake:%d:%d:%d", r.Intn(3), amt, nonce()))
 			}
 			sponsor := "-"
 			if r.Chance(50) {
